@@ -404,6 +404,8 @@ ColumnSteps(cols) ==
              \cup {<<"map_columns", <<<<q[2], q[1]>>>>, d>> :
                       q \in Samp(2, {r \in {"x2", "h2"} \X SetOf(cols) : Kind[r[1]] = Kind[r[2]]}),
                       d \in Samp(2, {<<>>} \cup {<<c>> : c \in SetOf(cols)})}
+             \* every column, in reverse order (a full permutation: nothing is dropped, only the order is declared)
+             \cup (IF Len(cols) >= 2 THEN {<<"select_columns", [i \in 1..Len(cols) |-> cols[Len(cols) + 1 - i]]>>} ELSE {})
              \* a column renamed onto the name of a column the same call deletes: {'x': 'y', 'y': None}
              \cup {<<"map_columns", <<<<p[1], p[2]>>>>, <<p[2]>>>> :
                       p \in Samp(2, {q \in Pairs(SetOf(cols)) : Kind[q[1]] = Kind[q[2]]})})
